@@ -188,6 +188,25 @@ theorem mem_values_iff (d : Dict κ ν) (h : (keys d).Nodup) (v : ν) :
         have := (ih h.2).mpr ⟨k, hk⟩
         simpa [values] using this
 
+theorem mem_iff_get? (d : Dict κ ν) (h : (keys d).Nodup) (k : κ) (v : ν) :
+    (k, v) ∈ d ↔ get? d k = some v := by
+  refine ⟨?_, get?_some_mem⟩
+  induction d with
+  | nil => simp
+  | cons p rest ih =>
+    obtain ⟨a, b⟩ := p
+    simp only [keys, List.map_cons, List.nodup_cons] at h
+    intro hm
+    simp only [List.mem_cons, Prod.mk.injEq] at hm
+    simp only [get?]
+    rcases hm with ⟨rfl, rfl⟩ | hm
+    · simp
+    · split
+      · rename_i e; subst e
+        exfalso; apply h.1
+        exact List.mem_map.mpr ⟨(a, v), hm, rfl⟩
+      · exact ih h.2 hm
+
 theorem eq_nil_of_forall_get?_none (d : Dict κ ν) (h : ∀ k, get? d k = none) : d = [] := by
   cases d with
   | nil => rfl
